@@ -30,7 +30,11 @@ func (s *State) evalUnquoteCalls(quoted ast.Node) ast.Node {
 			return node
 		}
 		unquoted := s.evalInternal(call.Parameters[0])
-		return convertObjectToASTNode(unquoted)
+		converted := convertObjectToASTNode(unquoted)
+		if converted == nil {
+			return node // unsupported value type (already logged): leave the unquote() call in the tree, not a nil node.
+		}
+		return converted
 	})
 }
 
